@@ -197,6 +197,7 @@ type TS struct {
 	stack  []*ssa.Function
 	budget int
 	memo   map[string][]outcome
+	pendingLegal map[string]AV
 	inline map[*ssa.Function]bool
 	allocReach map[*ssa.Function]bool
 	visitedFns map[*ssa.Function]bool
@@ -388,6 +389,10 @@ func (t *TS) execFn(fn *ssa.Function, args []AV, binds []AV, s *State) []outcome
 			ns.Env[p] = args[i]
 		}
 	}
+	for k, v := range t.pendingLegal {
+		ns.G.Cells[k] = v
+	}
+	t.pendingLegal = nil
 	for i, fv := range fn.FreeVars {
 		if i < len(binds) {
 			ns.Env[fv] = binds[i]
@@ -510,6 +515,9 @@ func pruneLocals(g *Global, fn *ssa.Function) {
 		if strings.HasPrefix(k, "$res:") && strings.HasSuffix(k, "~"+fn.Name()) {
 			delete(g.Cells, k)
 		}
+		if strings.HasPrefix(k, "$legal:"+fn.Name()+":") {
+			delete(g.Cells, k)
+		}
 	}
 }
 
@@ -531,6 +539,13 @@ func (t *TS) branch(s *State, ifi *ssa.If) (*State, *State) {
 	if a.K == KBool {
 		if _, isC := cond.(*ssa.Const); !isC {
 			t.noteBool(s, cond, a.B)
+		}
+		if call, ok := cond.(*ssa.Call); ok && !a.B {
+			if cal := call.Call.StaticCallee(); cal != nil && cal.Name() == "IllegalName" && len(call.Call.Args) == 1 {
+				if k := nameKey(call.Call.Args[0]); k != "" {
+					s.G.Cells["$legal:"+k] = AV{K: KBool, B: true}
+				}
+			}
 		}
 		if a.B != neg {
 			return s, nil
@@ -554,10 +569,26 @@ func (t *TS) branch(s *State, ifi *ssa.If) (*State, *State) {
 	}
 	setBool(tv, true)
 	setBool(fv, false)
+	if call, ok := cond.(*ssa.Call); ok {
+		if cal := call.Call.StaticCallee(); cal != nil && cal.Name() == "IllegalName" && len(call.Call.Args) == 1 {
+			if k := nameKey(call.Call.Args[0]); k != "" {
+				fv.G.Cells["$legal:"+k] = AV{K: KBool, B: true}
+			}
+		}
+	}
 	if neg {
 		return fv, tv
 	}
 	return tv, fv
+}
+
+// nameKey identifies a name-typed value by function, parameter and field path.
+func nameKey(v ssa.Value) string {
+	pm, path := paramFieldPath(v)
+	if pm == nil {
+		return ""
+	}
+	return pm.Parent().Name() + ":" + pm.Name() + "." + path
 }
 
 // refineEq refines x given that it is compared with constant y.
@@ -971,6 +1002,14 @@ func (t *TS) call(s *State, call *ssa.Call) []*State {
 			return []*State{s}
 		}
 	}
+	if callee != nil && relPkg(callee) == "dir" && (callee.Name() == "RemName" || callee.Name() == "AddName") {
+		nm := cc.Args[len(cc.Args)-1]
+		if k := nameKey(nm); k != "" {
+			_, legal := s.G.Cells["$legal:"+k]
+			_, path := paramFieldPath(nm)
+			t.event("namecheck", call, callee.Name()+"("+path+")", "", TxnSt{}, !legal, map[string]string{"name": path})
+		}
+	}
 	// ---- inlined helpers
 	if callee != nil && t.inline[callee] {
 		tracked := fav.K == KFunc
@@ -1003,6 +1042,17 @@ func (t *TS) call(s *State, call *ssa.Call) []*State {
 			for _, a := range args {
 				if id, ok := t.txnOf(a); ok && a.K == KTxn {
 					t.event("enter", call, callee.Name(), id, s.G.Txns[id], false, nil)
+				}
+			}
+			t.pendingLegal = nil
+			for i, a := range cc.Args {
+				if k := nameKey(a); k != "" && i < len(callee.Params) {
+					if _, legal := s.G.Cells["$legal:"+k]; legal {
+						if t.pendingLegal == nil {
+							t.pendingLegal = map[string]AV{}
+						}
+						t.pendingLegal["$legal:"+callee.Name()+":"+callee.Params[i].Name()+"."] = AV{K: KBool, B: true}
+					}
 				}
 			}
 			outs := t.execFn(callee, args, fav.Binds, s)
